@@ -79,98 +79,124 @@ theorem Store.tryRemove_wf (s : Store) (k cf : Nat) (h : s.items.WF) : (s.tryRem
 
 -- client operations ----------------------------------------------------------------------------
 
-theorem insert_inv06 (c : Cache) (su : Nat → Nat → Bool) (k cf v : Nat) (cost : Int) (ttl now : Nat)
-    (coster : Int) (only : Bool) (h : Inv06 c) : Inv06 (c.insert su k cf v cost ttl now coster only).1 := by
-  have hk := fun j => Store.tryUpdate_keys c.store su k v cf { d := ttl, created := now } j
-  unfold Cache.insert
+theorem Store.tryRemove_none_store (s : Store) (k cf : Nat) (h : (s.tryRemove k cf).2 = none) :
+    (s.tryRemove k cf).1 = s := by
+  unfold Store.tryRemove at *
+  cases hg : s.items.get k with
+  | none => simp
+  | some e => simp only [hg] at h ⊢; split <;> simp_all
+
+theorem mem_buf_snoc {x i : Item} {b p : List Item} (hx : x ∈ b ++ p) : x ∈ (b ++ [i]) ++ p := by
+  simp only [List.mem_append] at *
+  rcases hx with h | h
+  · exact Or.inl (Or.inl h)
+  · exact Or.inr h
+
+theorem mem_pend_snoc {x i : Item} {b p : List Item} (hx : x ∈ b ++ p) : x ∈ b ++ (p ++ [i]) := by
+  simp only [List.mem_append] at *
+  rcases hx with h | h
+  · exact Or.inl h
+  · exact Or.inr (Or.inl h)
+
+theorem insertBody_inv06 (c : Cache) (su : Nat → Nat → Bool) (k cf v : Nat) (cost : Int) (ttl now : Nat)
+    (coster : Int) (only : Bool) (h : Inv06 c) : Inv06 (c.insertBody su k cf v cost ttl now coster only).1 := by
+  have hk := fun j => (Store.tryUpdate_keys c.store su k v cf { d := ttl, created := now } j).1
+  have hwf := (Store.tryUpdate_keys c.store su k v cf { d := ttl, created := now } 0).2 h.storeWF
+  unfold Cache.insertBody
+  simp only []
   split
   · exact h
   · split
-    · exact h
-    · cases hu : c.store.tryUpdate su k v cf { d := ttl, created := now } with
-      | mk s' r =>
-        have hk' : ∀ j, (s'.items.get j).isSome = (c.store.items.get j).isSome := by
-          intro j; have := (hk j).1; rw [hu] at this; exact this
-        have hwf' : s'.items.WF := by have := (hk 0).2 h.storeWF; rw [hu] at this; exact this
-        cases r with
-        | update old =>
-          simp only
-          split
-          · apply inv06_transfer c _ hk' hwf' rfl h.lfuInv _ h
-            intro j ⟨cf', hm⟩
-            exact ⟨cf', by simp only [List.append_assoc, List.mem_append] at hm ⊢; tauto⟩
-          · exact inv06_transfer c _ hk' hwf' rfl h.lfuInv (fun j hj => hj) h
-        | notExist =>
-          simp only
-          split
-          · exact h
-          · split
-            · apply inv06_transfer c _ (fun _ => rfl) h.storeWF rfl h.lfuInv _ h
-              intro j ⟨cf', hm⟩
-              exact ⟨cf', by simp only [List.append_assoc, List.mem_append] at hm ⊢; tauto⟩
-            · exact inv06_transfer c _ (by simp) (by simpa using h.storeWF) (by simp) (by simpa using h.lfuInv)
-                (fun j ⟨cf', hm⟩ => ⟨cf', by simpa using hm⟩) h
-        | reject =>
-          simp only
-          split
-          · exact h
-          · split
-            · apply inv06_transfer c _ (fun _ => rfl) h.storeWF rfl h.lfuInv _ h
-              intro j ⟨cf', hm⟩
-              exact ⟨cf', by simp only [List.append_assoc, List.mem_append] at hm ⊢; tauto⟩
-            · exact inv06_transfer c _ (by simp) (by simpa using h.storeWF) (by simp) (by simpa using h.lfuInv)
-                (fun j ⟨cf', hm⟩ => ⟨cf', by simpa using hm⟩) h
-        | conflict =>
-          simp only
-          split
-          · exact h
-          · split
-            · apply inv06_transfer c _ (fun _ => rfl) h.storeWF rfl h.lfuInv _ h
-              intro j ⟨cf', hm⟩
-              exact ⟨cf', by simp only [List.append_assoc, List.mem_append] at hm ⊢; tauto⟩
-            · exact inv06_transfer c _ (by simp) (by simpa using h.storeWF) (by simp) (by simpa using h.lfuInv)
-                (fun j ⟨cf', hm⟩ => ⟨cf', by simpa using hm⟩) h
+    · -- update path
+      split
+      · refine inv06_transfer c _ ?_ ?_ ?_ ?_ ?_ h
+        · simpa using hk
+        · simpa using hwf
+        · rfl
+        · exact h.lfuInv
+        · intro j ⟨cf', hm⟩; exact ⟨cf', mem_buf_snoc hm⟩
+      · refine inv06_transfer c _ ?_ ?_ ?_ ?_ ?_ h
+        · simpa using hk
+        · simpa using hwf
+        · rfl
+        · exact h.lfuInv
+        · intro j hj; exact hj
+    · split
+      · exact h
+      · split
+        · refine inv06_transfer c _ ?_ ?_ ?_ ?_ ?_ h
+          · intro j; rfl
+          · exact h.storeWF
+          · rfl
+          · exact h.lfuInv
+          · intro j ⟨cf', hm⟩; exact ⟨cf', mem_buf_snoc hm⟩
+        · refine inv06_transfer c _ ?_ ?_ ?_ ?_ ?_ h
+          · intro j; simp
+          · simpa using h.storeWF
+          · simp
+          · simpa using h.lfuInv
+          · intro j ⟨cf', hm⟩; exact ⟨cf', by simpa using hm⟩
+
+theorem insert_inv06 (c : Cache) (su : Nat → Nat → Bool) (k cf v : Nat) (cost : Int) (ttl now : Nat)
+    (coster : Int) (only : Bool) (h : Inv06 c) : Inv06 (c.insert su k cf v cost ttl now coster only).1 := by
+  unfold Cache.insert
+  split
+  · exact h
+  · exact insertBody_inv06 c su k cf v cost ttl now coster only h
+
+theorem frame_inv06 (c c' : Cache) (hs : c'.store = c.store) (hl : c'.lfu = c.lfu)
+    (hb : c'.buf = c.buf) (hp : c'.pendingSends = c.pendingSends) (h : Inv06 c) : Inv06 c' := by
+  refine inv06_transfer c c' ?_ ?_ ?_ ?_ ?_ h
+  · intro j; rw [hs]
+  · rw [hs]; exact h.storeWF
+  · rw [hl]
+  · rw [hl]; exact h.lfuInv
+  · intro j ⟨cf', hm⟩; exact ⟨cf', by rw [hb, hp]; exact hm⟩
+
+/-- same entries (the expiry index may differ) -/
+theorem frame_inv06' (c c' : Cache) (hs : c'.store.items = c.store.items) (hl : c'.lfu = c.lfu)
+    (hb : c'.buf = c.buf) (hp : c'.pendingSends = c.pendingSends) (h : Inv06 c) : Inv06 c' := by
+  refine inv06_transfer c c' ?_ ?_ ?_ ?_ ?_ h
+  · intro j; rw [hs]
+  · rw [hs]; exact h.storeWF
+  · rw [hl]
+  · rw [hl]; exact h.lfuInv
+  · intro j ⟨cf', hm⟩; exact ⟨cf', by rw [hb, hp]; exact hm⟩
 
 theorem get_inv06 (c : Cache) (k cf now : Nat) (h : Inv06 c) : Inv06 (c.get k cf now).1 := by
   unfold Cache.get
   split
   · exact h
-  · split <;>
-      exact inv06_transfer c _ (by simp) (by simpa using h.storeWF) (by simp) (by simpa using h.lfuInv)
-        (fun j ⟨cf', hm⟩ => ⟨cf', by simpa using hm⟩) h
+  · simp only []
+    split <;> exact frame_inv06 c _ (by simp) (by simp) (by simp) (by simp) h
 
 theorem getMut_inv06 (c : Cache) (k cf now v : Nat) (h : Inv06 c) : Inv06 (c.getMutWrite k cf now v).1 := by
   unfold Cache.getMutWrite
   split
   · exact h
-  · have hk := fun j => Store.getMutWrite_keys (c.ringPush k).store k cf now v j
-    cases hg : (c.ringPush k).store.getMutWrite k cf now v with
-    | mk s' r =>
-      have hk' : ∀ j, (s'.items.get j).isSome = (c.store.items.get j).isSome := by
-        intro j; have := (hk j).1; rw [hg] at this; simpa using this
-      have hwf' : s'.items.WF := by
-        have := (hk 0).2 (by simpa using h.storeWF); rw [hg] at this; exact this
-      cases r with
-      | none =>
-        exact inv06_transfer c _ (by simp) (by simpa using h.storeWF) (by simp) (by simpa using h.lfuInv)
-          (fun j ⟨cf', hm⟩ => ⟨cf', by simpa using hm⟩) h
-      | some old =>
-        exact inv06_transfer c _ (by simpa using hk') (by simpa using hwf') (by simp) (by simpa using h.lfuInv)
-          (fun j ⟨cf', hm⟩ => ⟨cf', by simpa using hm⟩) h
+  · have hk := fun j => (Store.getMutWrite_keys (c.ringPush k).store k cf now v j).1
+    have hwf := (Store.getMutWrite_keys (c.ringPush k).store k cf now v 0).2 (by simpa using h.storeWF)
+    simp only []
+    split
+    · exact frame_inv06 c _ (by simp) (by simp) (by simp) (by simp) h
+    · refine inv06_transfer c _ ?_ ?_ ?_ ?_ ?_ h
+      · intro j; simpa using hk j
+      · simpa using hwf
+      · simp
+      · simpa using h.lfuInv
+      · intro j ⟨cf', hm⟩; exact ⟨cf', by simpa using hm⟩
 
 theorem remove_inv06 (c : Cache) (k cf : Nat) (h : Inv06 c) : Inv06 (c.remove k cf).1 := by
   unfold Cache.remove
   split
   · exact h
-  · -- after the store part: k possibly gone, everything else as before
-    have hget := fun j => Store.tryRemove_get c.store k cf j
+  · have hget := fun j => Store.tryRemove_get c.store k cf j
     have hwf := Store.tryRemove_wf c.store k cf h.storeWF
-    -- the state after the store step, before the send
+    -- any state whose store is the store after the removal, with the Delete appended somewhere
     have key : ∀ (c1 : Cache), c1.store = (c.store.tryRemove k cf).1 → c1.lfu = c.lfu →
-        ∀ (buf' pend' : List Item), (∀ x, x ∈ c.buf ++ c.pendingSends → x ∈ buf' ++ pend') →
-        Item.delete k cf ∈ buf' ++ pend' →
-        Inv06 { c1 with buf := buf', pendingSends := pend' } := by
-      intro c1 hs hl buf' pend' hsub hdel
+        (∀ x, x ∈ c.buf ++ c.pendingSends → x ∈ c1.buf ++ c1.pendingSends) →
+        Item.delete k cf ∈ c1.buf ++ c1.pendingSends → Inv06 c1 := by
+      intro c1 hs hl hsub hdel
       refine ⟨by simpa [hs] using hwf, by simpa [hl] using h.lfuInv, ?_, ?_⟩
       · intro j hj
         simp only [hs, hget] at hj
@@ -185,41 +211,730 @@ theorem remove_inv06 (c : Cache) (k cf : Nat) (h : Inv06 c) : Inv06 (c.remove k 
         · rcases h.charged_resident j hj with h1 | ⟨cf', hm⟩
           · left; simp only [hs, hget]; simp [hjk, h1]
           · right; exact ⟨cf', hsub _ hm⟩
-    cases htr : c.store.tryRemove k cf with
-    | mk s' removed =>
-      cases removed with
+    simp only []
+    cases hr : (c.store.tryRemove k cf).2 with
+    | some e =>
+      simp only
+      split
+      · exact key _ rfl rfl (fun x hx => mem_buf_snoc hx) (by simp)
+      · exact key _ rfl rfl (fun x hx => mem_pend_snoc hx) (by simp)
+    | none =>
+      have hst := Store.tryRemove_none_store c.store k cf hr
+      simp only
+      split
+      · exact key _ (by simpa using hst.symm) rfl (fun x hx => mem_buf_snoc hx) (by simp)
+      · exact key _ (by simpa using hst.symm) rfl (fun x hx => mem_pend_snoc hx) (by simp)
+
+end Stretto
+
+namespace Stretto
+
+-- helpers for the processor steps ---------------------------------------------------------------
+
+theorem Store.tryInsert_absent (s : Store) (su : Nat → Nat → Bool) (k v cf : Nat) (t : Time)
+    (h : s.items.get k = none) (j : Nat) :
+    (s.tryInsert su k v cf t).items.get j = if j = k then some ⟨cf, v, t⟩ else s.items.get j := by
+  unfold Store.tryInsert
+  simp [h, KMap.get_set]
+
+theorem Store.tryInsert_wf (s : Store) (su : Nat → Nat → Bool) (k v cf : Nat) (t : Time)
+    (h : s.items.WF) : (s.tryInsert su k v cf t).items.WF := by
+  unfold Store.tryInsert
+  cases s.items.get k with
+  | none => exact KMap.wf_set _ _ _ h
+  | some e =>
+    simp only
+    split
+    · exact h
+    · split
+      · exact h
+      · exact KMap.wf_set _ _ _ h
+
+/-- eviction of the victims: policy, buffer untouched; exactly the victims' keys leave the store -/
+theorem evictVictims_spec (vs : List (Nat × Int)) (c : Cache) :
+    (c.evictVictims vs).lfu = c.lfu ∧ (c.evictVictims vs).buf = c.buf ∧
+    (c.evictVictims vs).pendingSends = c.pendingSends ∧
+    (c.evictVictims vs).procExited = c.procExited ∧
+    (c.store.items.WF → (c.evictVictims vs).store.items.WF) ∧
+    ∀ j, (c.evictVictims vs).store.items.get j =
+      if j ∈ vs.map (·.1) then none else c.store.items.get j := by
+  induction vs generalizing c with
+  | nil => simp [Cache.evictVictims]
+  | cons p rest ih =>
+    obtain ⟨vk, vc⟩ := p
+    simp only [Cache.evictVictims]
+    cases hr : (c.store.tryRemove vk 0).2 with
+    | none =>
+      simp only
+      obtain ⟨h1, h2, h3, h4, h5, h6⟩ := ih c
+      refine ⟨h1, h2, h3, h4, h5, ?_⟩
+      intro j
+      rw [h6 j]
+      -- vk was not resident (conflict 0 always passes)
+      have hnot : c.store.items.get vk = none := by
+        cases hg : c.store.items.get vk with
+        | none => rfl
+        | some e =>
+          have := (Store.tryRemove_some_iff c.store vk 0 e).mpr ⟨hg, by simp [Store.conflictOk]⟩
+          rw [hr] at this; cases this
+      simp only [List.map_cons, List.mem_cons]
+      by_cases hj : j = vk
+      · subst hj
+        simp only [true_or, if_true]
+        split
+        · rfl
+        · exact hnot
+      · simp only [hj, false_or]
+    | some e =>
+      simp only
+      have hstore : ∀ (c2 : Cache), c2.store = (c.store.tryRemove vk 0).1 → c2.lfu = c.lfu →
+          c2.buf = c.buf → c2.pendingSends = c.pendingSends → c2.procExited = c.procExited →
+          (c2.evictVictims rest).lfu = c.lfu ∧ (c2.evictVictims rest).buf = c.buf ∧
+          (c2.evictVictims rest).pendingSends = c.pendingSends ∧
+          (c2.evictVictims rest).procExited = c.procExited ∧
+          (c.store.items.WF → (c2.evictVictims rest).store.items.WF) ∧
+          ∀ j, (c2.evictVictims rest).store.items.get j =
+            if j ∈ ((vk, vc) :: rest).map (·.1) then none else c.store.items.get j := by
+        intro c2 hs hl hb hp he
+        obtain ⟨h1, h2, h3, h4, h5, h6⟩ := ih c2
+        refine ⟨h1.trans hl, h2.trans hb, h3.trans hp, h4.trans he, ?_, ?_⟩
+        · intro hwf; apply h5; rw [hs]; exact Store.tryRemove_wf _ _ _ hwf
+        · intro j
+          rw [h6 j, hs, Store.tryRemove_get]
+          simp only [hr, Option.isSome_some, and_true, List.map_cons, List.mem_cons]
+          by_cases hj : j = vk
+          · subst hj; simp only [true_or, if_true]; split <;> rfl
+          · simp only [hj, false_or, if_false]
+      split
+      · exact hstore _ (by simp) (by simp) (by simp) (by simp) (by simp)
+      · exact hstore _ rfl rfl rfl rfl rfl
+
+/-- what is left to send after the processor popped the head of the buffer -/
+theorem admitPending_mem (c : Cache) (x : Item) :
+    x ∈ c.admitPending.buf ++ c.admitPending.pendingSends ↔ x ∈ c.buf ++ c.pendingSends := by
+  unfold Cache.admitPending
+  cases hp : c.pendingSends with
+  | nil => simp [hp]
+  | cons it rest =>
+    simp only
+    split
+    · simp only [List.mem_append, List.mem_cons, List.mem_singleton, List.not_mem_nil, or_false]
+      constructor
+      · rintro ((h | h) | h)
+        · exact Or.inl h
+        · exact Or.inr (Or.inl h)
+        · exact Or.inr (Or.inr h)
+      · rintro (h | h | h)
+        · exact Or.inl (Or.inl h)
+        · exact Or.inl (Or.inr h)
+        · exact Or.inr h
+    · simp [hp]
+
+theorem admitPending_frame (c : Cache) :
+    c.admitPending.store = c.store ∧ c.admitPending.lfu = c.lfu ∧ c.admitPending.procExited = c.procExited ∧
+    c.admitPending.cfg = c.cfg := by
+  unfold Cache.admitPending
+  cases c.pendingSends with
+  | nil => simp
+  | cons it rest => simp only; split <;> simp
+
+end Stretto
+
+namespace Stretto
+
+/-- the invariant right after the processor popped `it` from the buffer: the popped `Delete` no
+longer counts as pending -/
+structure InvPop (c : Cache) (it : Item) : Prop where
+  storeWF : c.store.items.WF
+  lfuInv : c.lfu.Inv
+  resident_charged : ∀ k, (c.store.items.get k).isSome = true → (c.lfu.costs.get k).isSome = true
+  charged_resident : ∀ k, (c.lfu.costs.get k).isSome = true →
+    (c.store.items.get k).isSome = true ∨ pendingDelete c k ∨ ∃ cf, it = Item.delete k cf
+
+theorem pop_invPop (c : Cache) (it : Item) (rest : List Item) (hb : c.buf = it :: rest) (h : Inv06 c) :
+    InvPop (({ c with buf := rest } : Cache).admitPending) it := by
+  have hf := admitPending_frame ({ c with buf := rest } : Cache)
+  refine ⟨by rw [hf.1]; exact h.storeWF, by rw [hf.2.1]; exact h.lfuInv, ?_, ?_⟩
+  · intro k hk; rw [hf.1] at hk; rw [hf.2.1]; exact h.resident_charged k hk
+  · intro k hk
+    rw [hf.2.1] at hk
+    rcases h.charged_resident k hk with h1 | ⟨cf, hm⟩
+    · left; rw [hf.1]; exact h1
+    · right
+      rw [hb] at hm
+      simp only [List.cons_append, List.mem_cons] at hm
+      rcases hm with hm | hm
+      · right; exact ⟨cf, hm.symm⟩
+      · left; exact ⟨cf, (admitPending_mem _ _).mpr (by simpa using hm)⟩
+
+/-- guard on the oracle inputs of an admission: no sampled victim is the incoming key itself
+(sample entries are charged keys, the incoming key is not charged; checked by the driver) -/
+def VictimsOk (c : Cache) (est : Nat → Int) (refills : List (List (Nat × Int))) : Item → Prop
+  | .new k _ cost _ _ => ∀ vs, (policyAdd c.lfu est k (c.internalCost cost) refills).victims = some vs →
+      ∀ v ∈ vs, v.1 ≠ k
+  | _ => True
+
+theorem handleNew_inv06 (c : Cache) (su : Nat → Nat → Bool) (est : Nat → Int)
+    (refills : List (List (Nat × Int))) (k cf : Nat) (cost : Int) (v : Nat) (exp : Time)
+    (h : InvPop c (Item.new k cf cost v exp))
+    (hv : VictimsOk c est refills (Item.new k cf cost v exp)) :
+    Inv06 (c.handleItem su est refills (Item.new k cf cost v exp)) := by
+  have spec := policyAdd_spec c.lfu est k (c.internalCost cost) refills h.lfuInv
+  -- abbreviations
+  generalize hR : policyAdd c.lfu est k (c.internalCost cost) refills = R at spec hv
+  simp only [VictimsOk, hR] at hv
+  -- the state after admission / rejection, before the victims are removed from the store
+  let c2 : Cache :=
+    if R.added then
+      (if (({ c with lfu := R.lfu } : Cache).met fun m => m.applyEvs R.events).cfg.metricsOn then
+        { (({ c with lfu := R.lfu } : Cache).met fun m => m.applyEvs R.events) with
+          store := c.store.tryInsert su k v cf exp,
+          metrics := { (({ c with lfu := R.lfu } : Cache).met fun m => m.applyEvs R.events).metrics with
+            keyAdd := u64 ((({ c with lfu := R.lfu } : Cache).met fun m => m.applyEvs R.events).metrics.keyAdd + 1) } }
+      else { (({ c with lfu := R.lfu } : Cache).met fun m => m.applyEvs R.events) with
+          store := c.store.tryInsert su k v cf exp })
+    else { (({ c with lfu := R.lfu } : Cache).met fun m => m.applyEvs R.events) with
+        cbs := CB.reject k cf v (c.internalCost cost) :: c.cbs }
+  have hc2 : c.handleItem su est refills (Item.new k cf cost v exp) =
+      (match R.victims with | some vs => c2.evictVictims vs | none => c2) := by
+    simp only [Cache.handleItem, hR, c2]
+    split <;> (split <;> simp_all)
+  -- facts about c2
+  have hc2lfu : c2.lfu = R.lfu := by simp only [c2]; split <;> (try split) <;> simp
+  have hc2buf : c2.buf = c.buf ∧ c2.pendingSends = c.pendingSends := by
+    simp only [c2]; split <;> (try split) <;> simp
+  have hknew : R.added = true → c.store.items.get k = none := by
+    intro ha
+    have hk0 := (spec.admitted ha).2.2
+    cases hg : c.store.items.get k with
+    | none => rfl
+    | some e =>
+      have := h.resident_charged k (by simp [hg])
+      rw [hk0] at this; cases this
+  have hc2store : ∀ j, c2.store.items.get j =
+      if R.added = true ∧ j = k then some ⟨cf, v, exp⟩ else c.store.items.get j := by
+    intro j
+    by_cases ha : R.added = true
+    · have := Store.tryInsert_absent c.store su k v cf exp (hknew ha) j
+      simp only [c2, ha, if_true]
+      split <;> simp [this]
+    · simp only [c2, ha]; simp
+  have hc2wf : c2.store.items.WF := by
+    by_cases ha : R.added = true
+    · simp only [c2, ha, if_true]; split <;> exact Store.tryInsert_wf _ _ _ _ _ _ h.storeWF
+    · simp only [c2, ha]; simpa using h.storeWF
+  -- the final state
+  have hfin : ∃ vs : List (Nat × Int), (R.victims = some vs ∨ (R.victims = none ∧ vs = [])) ∧
+      (c.handleItem su est refills (Item.new k cf cost v exp)) = c2.evictVictims vs := by
+    cases hvs : R.victims with
+    | none => exact ⟨[], Or.inr ⟨rfl, rfl⟩, by rw [hc2, hvs]; simp [Cache.evictVictims]⟩
+    | some vs => exact ⟨vs, Or.inl rfl, by rw [hc2, hvs]⟩
+  obtain ⟨vs, hvs, hfinal⟩ := hfin
+  rw [hfinal]
+  obtain ⟨e1, e2, e3, _, e5, e6⟩ := evictVictims_spec vs c2
+  have hvk : ∀ p ∈ vs, p.1 ≠ k := by
+    rcases hvs with hvs | ⟨_, rfl⟩
+    · exact hv vs hvs
+    · intro p hp; cases hp
+  -- victims are iteration victims
+  have hvlog : ∀ p ∈ vs, ∃ it ∈ R.log, it.victim = some p := by
+    rcases hvs with hvs | ⟨_, rfl⟩
+    · intro p hp
+      have := spec.victims_eq vs hvs
+      rw [this] at hp
+      simp only [List.mem_filterMap] at hp
+      exact hp
+    · intro p hp; cases hp
+  refine ⟨e5 hc2wf, by rw [e1, hc2lfu]; exact spec.inv, ?_, ?_⟩
+  · -- resident ⇒ charged
+    intro j hj
+    rw [e1, hc2lfu]
+    rw [e6 j] at hj
+    split at hj
+    · cases hj
+    · rename_i hnotv
+      rw [hc2store j] at hj
+      by_cases hjk : j = k
+      · subst hjk
+        by_cases ha : R.added = true
+        · rw [(spec.admitted ha).2.1]; rfl
+        · -- not admitted: k was resident hence charged; update path or oversize keep the charge
+          simp only [ha, false_and, if_false] at hj
+          have hch := h.resident_charged j hj
+          by_cases hbig : c.internalCost cost > c.lfu.maxCost
+          · rw [(spec.oversize hbig).2.1]; exact hch
+          · obtain ⟨prev, hprev⟩ := Option.isSome_iff_exists.mp hch
+            rw [(spec.update (by omega) ⟨prev, hprev⟩).2.2.1]; rfl
+      · simp only [hjk, and_false, if_false] at hj
+        have hch := h.resident_charged j hj
+        rcases spec.only_released j hjk with hn | hsame
+        · -- the charge went away: j was a victim, so it cannot be resident now
+          obtain ⟨it, hit, vc, hvic⟩ := spec.only_victims j hjk hch hn
+          exfalso
+          apply hnotv
+          have hne : R.log ≠ [] := by intro hnil; rw [hnil] at hit; cases hit
+          have hveq := spec.victims_log hne
+          rcases hvs with hvs | ⟨hnone, _⟩
+          · rw [hvs] at hveq
+            have : vs = R.log.filterMap (·.victim) := Option.some.inj hveq
+            rw [this]
+            simp only [List.mem_map, List.mem_filterMap]
+            exact ⟨(j, vc), ⟨it, hit, hvic⟩, rfl⟩
+          · rw [hnone] at hveq; cases hveq
+        · rw [hsame]; exact hch
+  · -- charged ⇒ resident or a Delete is pending
+    intro j hj
+    rw [e1, hc2lfu] at hj
+    have hpend : ∀ j, pendingDelete c j → pendingDelete (c2.evictVictims vs) j := by
+      intro j ⟨cf', hm⟩; exact ⟨cf', by rw [e2, e3, hc2buf.1, hc2buf.2]; exact hm⟩
+    by_cases hjk : j = k
+    · subst hjk
+      have hnv : j ∉ vs.map (·.1) := by
+        intro hm
+        obtain ⟨p, hp, hpe⟩ := List.mem_map.mp hm
+        exact hvk p hp hpe
+      have hres : (c2.store.items.get j).isSome = true →
+          ((c2.evictVictims vs).store.items.get j).isSome = true := by
+        intro hr; rw [e6 j]; simp only [hnv, if_false]; exact hr
+      by_cases ha : R.added = true
+      · left; apply hres; rw [hc2store j]; simp [ha]
+      · have haf : R.added = false := by simpa using ha
+        -- not admitted yet charged: it was charged before
+        have hch0 : (c.lfu.costs.get j).isSome = true := by
+          cases hg : c.lfu.costs.get j with
+          | some prev => rfl
+          | none => have := spec.refused haf hg; rw [this] at hj; cases hj
+        rcases h.charged_resident j hch0 with h1 | h1 | ⟨cf', h1⟩
+        · left; apply hres; rw [hc2store j]; simp only [ha, false_and, if_false]; exact h1
+        · right; exact hpend j h1
+        · cases h1
+    · rcases spec.only_released j hjk with hn | hsame
+      · rw [hn] at hj; cases hj
+      · rw [hsame] at hj
+        rcases h.charged_resident j hj with h1 | h1 | ⟨cf', h1⟩
+        · left
+          rw [e6 j]
+          have hnv : j ∉ vs.map (·.1) := by
+            intro hm
+            obtain ⟨p, hp, hpe⟩ := List.mem_map.mp hm
+            obtain ⟨it, hit, hvic⟩ := hvlog p hp
+            have := spec.released it hit p hvic (by rw [hpe]; exact hjk)
+            rw [hpe, hsame] at this
+            rw [this] at hj; cases hj
+          simp only [hnv, if_false]
+          rw [hc2store j]
+          simp only [hjk, and_false, if_false]
+          exact h1
+        · right; exact hpend j h1
+        · cases h1
+
+end Stretto
+
+namespace Stretto
+
+theorem handleUpdate_inv06 (c : Cache) (su : Nat → Nat → Bool) (est : Nat → Int)
+    (refills : List (List (Nat × Int))) (k : Nat) (cost ext : Int)
+    (h : InvPop c (Item.update k cost ext)) :
+    Inv06 (c.handleItem su est refills (Item.update k cost ext)) := by
+  have hkeys : ∀ j, (((c.lfu.update k (c.internalCost cost + ext)).1).costs.get j).isSome =
+      (c.lfu.costs.get j).isSome := by
+    intro j
+    unfold Lfu.update
+    cases hg : c.lfu.costs.get k with
+    | none => rfl
+    | some prev =>
+      simp only [KMap.get_set]
+      split
+      · rename_i hjk; subst hjk; simp [hg]
+      · rfl
+  simp only [Cache.handleItem]
+  refine ⟨by simpa using h.storeWF, by simpa using Lfu.update_inv c.lfu k _ h.lfuInv, ?_, ?_⟩
+  · intro j hj
+    simp only [Cache.met_store] at hj
+    simp only [Cache.met_lfu, hkeys]
+    exact h.resident_charged j hj
+  · intro j hj
+    simp only [Cache.met_lfu, hkeys] at hj
+    rcases h.charged_resident j hj with h1 | ⟨cf, hm⟩ | ⟨cf, h1⟩
+    · left; simpa using h1
+    · right; exact ⟨cf, by simpa using hm⟩
+    · cases h1
+
+theorem handleWait_inv06 (c : Cache) (su : Nat → Nat → Bool) (est : Nat → Int)
+    (refills : List (List (Nat × Int))) (id : Nat) (h : InvPop c (Item.wait id)) :
+    Inv06 (c.handleItem su est refills (Item.wait id)) := by
+  simp only [Cache.handleItem]
+  refine ⟨h.storeWF, h.lfuInv, h.resident_charged, ?_⟩
+  intro j hj
+  rcases h.charged_resident j hj with h1 | ⟨cf, hm⟩ | ⟨cf, h1⟩
+  · left; exact h1
+  · right; exact ⟨cf, hm⟩
+  · cases h1
+
+theorem policyRemove_get (l : Lfu) (k j : Nat) :
+    (policyRemove l k).1.costs.get j = if j = k then none else l.costs.get j := by
+  have : (policyRemove l k).1 = (l.remove k).1 := by
+    unfold policyRemove
+    cases h2 : l.remove k with
+    | mk l2 o => cases o <;> rfl
+  rw [this, Lfu.remove_get]
+
+theorem policyRemove_inv (l : Lfu) (k : Nat) (h : l.Inv) : (policyRemove l k).1.Inv := by
+  have : (policyRemove l k).1 = (l.remove k).1 := by
+    unfold policyRemove
+    cases h2 : l.remove k with
+    | mk l2 o => cases o <;> rfl
+  rw [this]; exact Lfu.remove_inv l k h
+
+theorem handleDelete_inv06 (c : Cache) (su : Nat → Nat → Bool) (est : Nat → Int)
+    (refills : List (List (Nat × Int))) (k cf : Nat) (h : InvPop c (Item.delete k cf)) :
+    Inv06 (c.handleItem su est refills (Item.delete k cf)) := by
+  have hget := fun j => Store.tryRemove_get c.store k cf j
+  have hwf := Store.tryRemove_wf c.store k cf h.storeWF
+  -- the state before the callback is appended
+  let c2 : Cache :=
+    if ((c.store.tryRemove k cf).1.expiration k).isNone then
+      (({ c with store := (c.store.tryRemove k cf).1, lfu := (policyRemove c.lfu k).1 } : Cache).met
+        fun m => m.applyEvs (policyRemove c.lfu k).2)
+    else { c with store := (c.store.tryRemove k cf).1 }
+  have hfin : ∃ cbs', c.handleItem su est refills (Item.delete k cf) = { c2 with cbs := cbs' } := by
+    simp only [Cache.handleItem, c2]
+    cases (c.store.tryRemove k cf).2 <;> exact ⟨_, rfl⟩
+  obtain ⟨cbs', hfinal⟩ := hfin
+  rw [hfinal]
+  by_cases hgone : ((c.store.tryRemove k cf).1.expiration k).isNone = true
+  · -- the index is no longer held by the store: the charge is released
+    have hc2 : c2 = (({ c with store := (c.store.tryRemove k cf).1, lfu := (policyRemove c.lfu k).1 } : Cache).met
+        fun m => m.applyEvs (policyRemove c.lfu k).2) := by simp only [c2, hgone, if_true]
+    have hknone : (c.store.tryRemove k cf).1.items.get k = none := by
+      simpa [Store.expiration] using hgone
+    refine ⟨by simp only [hc2, Cache.met_store]; exact hwf,
+            by simp only [hc2, Cache.met_lfu]; exact policyRemove_inv c.lfu k h.lfuInv, ?_, ?_⟩
+    · intro j hj
+      simp only [hc2, Cache.met_store, Cache.met_lfu] at hj ⊢
+      rw [policyRemove_get]
+      by_cases hjk : j = k
+      · subst hjk; rw [hknone] at hj; cases hj
+      · simp only [hjk, if_false]
+        rw [hget j] at hj
+        simp only [hjk, false_and, if_false] at hj
+        exact h.resident_charged j hj
+    · intro j hj
+      simp only [hc2, Cache.met_lfu] at hj
+      rw [policyRemove_get] at hj
+      by_cases hjk : j = k
+      · subst hjk; simp at hj
+      · simp only [hjk, if_false] at hj
+        rcases h.charged_resident j hj with h1 | ⟨cf', hm⟩ | ⟨cf', h1⟩
+        · left
+          simp only [hc2, Cache.met_store]
+          rw [hget j]; simp only [hjk, false_and, if_false]; exact h1
+        · right; exact ⟨cf', by simp only [hc2, Cache.met_buf, Cache.met_pendingSends]; exact hm⟩
+        · exfalso; apply hjk; cases h1; rfl
+  · -- the index is still held (an entry of another key colliding on it): the charge stays
+    have hc2 : c2 = { c with store := (c.store.tryRemove k cf).1 } := by simp only [c2, hgone]; simp
+    have hksome : ((c.store.tryRemove k cf).1.items.get k).isSome = true := by
+      cases hg : (c.store.tryRemove k cf).1.items.get k with
+      | some e => rfl
+      | none => exfalso; apply hgone; simp [Store.expiration, hg]
+    -- nothing was removed: the store is unchanged
+    have hsame : (c.store.tryRemove k cf).1 = c.store := by
+      apply Store.tryRemove_none_store
+      cases hr : (c.store.tryRemove k cf).2 with
+      | none => rfl
       | some e =>
-        simp only
+        have := hget k
+        simp only [hr, Option.isSome_some, and_self, if_true] at this
+        rw [this] at hksome; cases hksome
+    refine ⟨by simp only [hc2]; exact hwf, by simp only [hc2]; exact h.lfuInv, ?_, ?_⟩
+    · intro j hj
+      simp only [hc2, hsame] at hj ⊢
+      exact h.resident_charged j hj
+    · intro j hj
+      simp only [hc2] at hj
+      rcases h.charged_resident j hj with h1 | ⟨cf', hm⟩ | ⟨cf', h1⟩
+      · left; simp only [hc2, hsame]; exact h1
+      · right; exact ⟨cf', by simp only [hc2]; exact hm⟩
+      · left
+        have : j = k := by cases h1; rfl
+        subst this
+        simp only [hc2]; exact hksome
+
+theorem procItem_inv06 (c c' : Cache) (su : Nat → Nat → Bool) (est : Nat → Int)
+    (refills : List (List (Nat × Int))) (h : Inv06 c)
+    (hv : ∀ it rest, c.buf = it :: rest →
+      VictimsOk (({ c with buf := rest } : Cache).admitPending) est refills it)
+    (hs : c.procItem su est refills = some c') : Inv06 c' := by
+  unfold Cache.procItem at hs
+  split at hs
+  · cases hs
+  · split at hs
+    · cases hs
+    · rename_i it rest hb
+      simp only [Option.some.injEq] at hs
+      subst hs
+      have hp := pop_invPop c it rest hb h
+      have hvk := hv it rest hb
+      cases it with
+      | new k cf cost v exp => exact handleNew_inv06 _ su est refills k cf cost v exp hp hvk
+      | update k cost ext => exact handleUpdate_inv06 _ su est refills k cost ext hp
+      | delete k cf => exact handleDelete_inv06 _ su est refills k cf hp
+      | wait id => exact handleWait_inv06 _ su est refills id hp
+
+end Stretto
+
+namespace Stretto
+
+theorem drain_frame' (items : List Item) (c : Cache) :
+    (items.foldl Cache.drainItem c).store = c.store ∧ (items.foldl Cache.drainItem c).lfu = c.lfu ∧
+    (items.foldl Cache.drainItem c).buf = c.buf ∧
+    (items.foldl Cache.drainItem c).pendingSends = c.pendingSends := by
+  induction items generalizing c with
+  | nil => simp
+  | cons it rest ih =>
+    simp only [List.foldl_cons]
+    have := ih (c.drainItem it)
+    cases it <;> simpa [Cache.drainItem] using this
+
+theorem procClear_inv06 (c c' : Cache) (hs : c.procClear = some c') : Inv06 c' := by
+  unfold Cache.procClear at hs
+  split at hs
+  · cases hs
+  · split at hs
+    · cases hs
+    · simp only [Option.some.injEq] at hs
+      subst hs
+      refine ⟨by simp [Store.clear, Store.empty, KMap.wf_nil], Lfu.clear_inv _, ?_, ?_⟩
+      · intro k hk; simp [Store.clear, Store.empty] at hk
+      · intro k hk; simp [Lfu.clear] at hk
+
+/-- one sweep step keeps the invariant, provided the conflict filed in the bucket passes the
+store's check for the entry it refers to -/
+theorem sweepOne_inv06 (c : Cache) (now k cf : Nat) (h : Inv06 c)
+    (hok : ∀ e, c.store.items.get k = some e → Store.conflictOk cf e = true) :
+    Inv06 (c.sweepOne now k cf).1 := by
+  have hget := fun j => Cache.sweepOne_get c now k cf j
+  have hfr : (c.sweepOne now k cf).1.buf = c.buf ∧ (c.sweepOne now k cf).1.pendingSends = c.pendingSends := by
+    unfold Cache.sweepOne
+    cases c.store.expiration k with
+    | none => simp
+    | some t => simp only; split
+                · cases (c.store.tryRemove k cf).2 <;> simp
+                · simp
+  -- did this step remove k?
+  cases hrem : (c.sweepOne now k cf).2 with
+  | some cb =>
+    obtain ⟨e, he, hdue, hcf, _⟩ := (Cache.sweepOne_removed_iff c now k cf cb).mp hrem
+    -- store: k erased; policy: k released
+    have hstore : (c.sweepOne now k cf).1.store.items = c.store.items.erase k := by
+      unfold Cache.sweepOne
+      simp only [Store.expiration, he, Option.map_some, hdue, if_true]
+      have htr : (c.store.tryRemove k cf).2 = some e := (Store.tryRemove_some_iff c.store k cf e).mpr ⟨he, hcf⟩
+      simp only [htr]
+      unfold Store.tryRemove
+      simp [he, hcf]
+    have hlfu : (c.sweepOne now k cf).1.lfu = (policyRemove c.lfu k).1 := by
+      unfold Cache.sweepOne
+      simp only [Store.expiration, he, Option.map_some, hdue, if_true]
+      have htr : (c.store.tryRemove k cf).2 = some e := (Store.tryRemove_some_iff c.store k cf e).mpr ⟨he, hcf⟩
+      simp [htr]
+    refine ⟨by rw [hstore]; exact KMap.wf_erase _ _ h.storeWF, by rw [hlfu]; exact policyRemove_inv _ _ h.lfuInv, ?_, ?_⟩
+    · intro j hj
+      rw [hstore, KMap.get_erase] at hj
+      rw [hlfu, policyRemove_get]
+      split at hj
+      · cases hj
+      · rename_i hjk; simp only [hjk, if_false]; exact h.resident_charged j hj
+    · intro j hj
+      rw [hlfu, policyRemove_get] at hj
+      by_cases hjk : j = k
+      · simp [hjk] at hj
+      · simp only [hjk, if_false] at hj
+        rcases h.charged_resident j hj with h1 | ⟨cf', hm⟩
+        · left; rw [hstore, KMap.get_erase]; simp only [hjk, if_false]; exact h1
+        · right; exact ⟨cf', by rw [hfr.1, hfr.2]; exact hm⟩
+  | none =>
+    -- nothing removed from the store; the charge of k is dropped only if k was due, and then the
+    -- conflict check must have failed — excluded by the guard — or k was not resident at all
+    have hstore : ∀ j, (c.sweepOne now k cf).1.store.items.get j = c.store.items.get j := by
+      intro j; rw [hget j, hrem]; simp
+    have hwf : (c.sweepOne now k cf).1.store.items.WF := by
+      unfold Cache.sweepOne at hrem ⊢
+      cases hx : c.store.expiration k with
+      | none => simpa using h.storeWF
+      | some t =>
+        simp only [hx] at hrem ⊢
         split
-        · have := key { c with store := s', cbs := CB.exit e.val :: c.cbs } (by simp [htr]) rfl
-            (c.buf ++ [Item.delete k cf]) c.pendingSends
-            (by intro x hx; simp only [List.mem_append] at hx ⊢; tauto) (by simp)
-          simpa using this
-        · have := key { c with store := s', cbs := CB.exit e.val :: c.cbs } (by simp [htr]) rfl
-            c.buf (c.pendingSends ++ [Item.delete k cf])
-            (by intro x hx; simp only [List.mem_append] at hx ⊢; tauto) (by simp)
-          simpa using this
-      | none =>
-        have hs' : s' = (c.store.tryRemove k cf).1 := by rw [htr]
-        simp only
+        · rename_i hdue
+          simp only [hdue, if_true] at hrem
+          cases htr : (c.store.tryRemove k cf).2 with
+          | none => simpa using h.storeWF
+          | some e => simp [htr] at hrem
+        · simpa using h.storeWF
+    have hlfu : (c.sweepOne now k cf).1.lfu = c.lfu := by
+      unfold Cache.sweepOne at hrem ⊢
+      cases hg : c.store.items.get k with
+      | none => simp [Store.expiration, hg]
+      | some e =>
+        simp only [Store.expiration, hg, Option.map_some] at hrem ⊢
         split
-        · have := key c (by
-              have := Store.tryRemove_some_iff c.store k cf
-              -- nothing removed: the store is unchanged
-              unfold Store.tryRemove at htr ⊢
-              cases hg : c.store.items.get k with
-              | none => simp [hg]
-              | some e => simp only [hg] at htr ⊢; split at htr <;> simp_all) rfl
-            (c.buf ++ [Item.delete k cf]) c.pendingSends
-            (by intro x hx; simp only [List.mem_append] at hx ⊢; tauto) (by simp)
-          simpa using this
-        · have := key c (by
-              unfold Store.tryRemove at htr ⊢
-              cases hg : c.store.items.get k with
-              | none => simp [hg]
-              | some e => simp only [hg] at htr ⊢; split at htr <;> simp_all) rfl
-            c.buf (c.pendingSends ++ [Item.delete k cf])
-            (by intro x hx; simp only [List.mem_append] at hx ⊢; tauto) (by simp)
-          simpa using this
+        · rename_i hdue
+          -- due and resident with a passing conflict: it would have been removed
+          exfalso
+          have htr : (c.store.tryRemove k cf).2 = some e :=
+            (Store.tryRemove_some_iff c.store k cf e).mpr ⟨hg, hok e hg⟩
+          simp [hdue, htr] at hrem
+        · rfl
+    refine ⟨hwf, by rw [hlfu]; exact h.lfuInv, ?_, ?_⟩
+    · intro j hj; rw [hstore] at hj; rw [hlfu]; exact h.resident_charged j hj
+    · intro j hj; rw [hlfu] at hj
+      rcases h.charged_resident j hj with h1 | ⟨cf', hm⟩
+      · left; rw [hstore]; exact h1
+      · right; exact ⟨cf', by rw [hfr.1, hfr.2]; exact hm⟩
+
+theorem sweepKeys_inv06 (keys : List (Nat × Nat)) (c : Cache) (now : Nat) (acc : List CB) (h : Inv06 c)
+    (hok : TickOk c keys) : Inv06 (c.sweepKeys now keys acc).1 := by
+  induction keys generalizing c acc with
+  | nil => simpa [Cache.sweepKeys] using h
+  | cons p rest ih =>
+    obtain ⟨k, cf⟩ := p
+    simp only [Cache.sweepKeys]
+    apply ih
+    · exact sweepOne_inv06 c now k cf h (fun e he => hok k cf e (by simp) he)
+    · intro k' cf' e hm he
+      rw [Cache.sweepOne_get] at he
+      split at he
+      · cases he
+      · exact hok k' cf' e (by simp [hm]) he
+
+theorem deliverEvictions_frame (cbs : List CB) (c : Cache) :
+    (c.deliverEvictions cbs).store = c.store ∧ (c.deliverEvictions cbs).lfu = c.lfu ∧
+    (c.deliverEvictions cbs).buf = c.buf ∧ (c.deliverEvictions cbs).pendingSends = c.pendingSends := by
+  induction cbs generalizing c with
+  | nil => simp [Cache.deliverEvictions]
+  | cons cb rest ih =>
+    simp only [Cache.deliverEvictions]
+    have := ih ({ (match cb with
+      | .evict k _ _ _ =>
+        let tracked := c.tracked.contains k
+        let c := { c with tracked := c.tracked.filter (· != k) }
+        if tracked then c.met fun m => { m with lifeCount := m.lifeCount + 1 } else c
+      | _ => c) with cbs := cb :: (match cb with
+      | .evict k _ _ _ =>
+        let tracked := c.tracked.contains k
+        let c := { c with tracked := c.tracked.filter (· != k) }
+        if tracked then c.met fun m => { m with lifeCount := m.lifeCount + 1 } else c
+      | _ => c).cbs })
+    cases cb with
+    | exit v => simpa using this
+    | reject k cf v cost => simpa using this
+    | evict k cf v cost =>
+      simp only at this ⊢
+      split at this <;> split <;> simp_all
+
+theorem procTick_inv06 (c c' : Cache) (now : Nat) (order : List (Nat × Nat)) (h : Inv06 c)
+    (hok : TickOk c order) (hs : c.procTick now order = some c') : Inv06 c' := by
+  unfold Cache.procTick at hs
+  split at hs
+  · cases hs
+  · simp only [Option.some.injEq] at hs
+    subst hs
+    -- dropping the due buckets touches neither entries nor charges
+    have h0 : Inv06 ({ c with store := { c.store with em := (c.store.em.tryCleanup now).1 } } : Cache) :=
+      frame_inv06' c _ (by simp) (by simp) (by simp) (by simp) h
+    have h1 := sweepKeys_inv06 order _ now [] h0 (by
+      intro k cf e hm he; exact hok k cf e hm (by simpa using he))
+    have hf := deliverEvictions_frame
+      ((({ c with store := { c.store with em := (c.store.em.tryCleanup now).1 } } : Cache).sweepKeys now order []).2.reverse)
+      (({ c with store := { c.store with em := (c.store.em.tryCleanup now).1 } } : Cache).sweepKeys now order []).1
+    exact frame_inv06 _ _ hf.1 hf.2.1 hf.2.2.1 hf.2.2.2 h1
+
+end Stretto
+
+namespace Stretto
+
+/-- handling an item never touches the insert buffer, nor the processor's liveness -/
+theorem evictVictims_fields (vs : List (Nat × Int)) (c : Cache) :
+    (c.evictVictims vs).buf = c.buf ∧ (c.evictVictims vs).procExited = c.procExited :=
+  ⟨(evictVictims_spec vs c).2.1, (evictVictims_spec vs c).2.2.2.1⟩
+
+theorem handleItem_buf (c : Cache) (su : Nat → Nat → Bool) (est : Nat → Int)
+    (refills : List (List (Nat × Int))) (it : Item) : (c.handleItem su est refills it).buf = c.buf := by
+  cases it with
+  | wait w => rfl
+  | update k cost ext => simp [Cache.handleItem]
+  | delete k cf =>
+    simp only [Cache.handleItem]
+    cases (c.store.tryRemove k cf).2 <;> (simp only; split <;> simp)
+  | new k cf cost v exp =>
+    simp only [Cache.handleItem]
+    split <;> (try rw [(evictVictims_fields _ _).1]) <;> (split <;> (try split) <;> simp)
+
+theorem handleNew_buf (c : Cache) (su : Nat → Nat → Bool) (est : Nat → Int)
+    (refills : List (List (Nat × Int))) (k cf : Nat) (cost : Int) (v : Nat) (exp : Time) :
+    (c.handleItem su est refills (Item.new k cf cost v exp)).buf = c.buf :=
+  handleItem_buf c su est refills _
+
+theorem handleItem_procExited (c : Cache) (su : Nat → Nat → Bool) (est : Nat → Int)
+    (refills : List (List (Nat × Int))) (it : Item) :
+    (c.handleItem su est refills it).procExited = c.procExited := by
+  cases it with
+  | wait w => rfl
+  | update k cost ext => simp [Cache.handleItem]
+  | delete k cf =>
+    simp only [Cache.handleItem]
+    cases (c.store.tryRemove k cf).2 <;> (simp only; split <;> simp)
+  | new k cf cost v exp =>
+    simp only [Cache.handleItem]
+    split <;> (try rw [(evictVictims_fields _ _).2]) <;> (split <;> (try split) <;> simp)
+
+theorem admitPending_released (c : Cache) : c.admitPending.released = c.released := by
+  unfold Cache.admitPending
+  cases c.pendingSends with
+  | nil => rfl
+  | cons it rest => simp only; split <;> rfl
+
+theorem sweepOne_frame (c : Cache) (now k cf : Nat) :
+    (c.sweepOne now k cf).1.buf = c.buf ∧ (c.sweepOne now k cf).1.released = c.released := by
+  unfold Cache.sweepOne
+  cases c.store.expiration k with
+  | none => simp
+  | some t => simp only; split
+              · cases (c.store.tryRemove k cf).2 <;> simp
+              · simp
+
+theorem sweepKeys_frame (keys : List (Nat × Nat)) (c : Cache) (now : Nat) (acc : List CB) :
+    (c.sweepKeys now keys acc).1.buf = c.buf ∧ (c.sweepKeys now keys acc).1.released = c.released := by
+  induction keys generalizing c acc with
+  | nil => simp [Cache.sweepKeys]
+  | cons p rest ih =>
+    obtain ⟨k, cf⟩ := p
+    simp only [Cache.sweepKeys]
+    have h1 := ih (c.sweepOne now k cf).1 (match (c.sweepOne now k cf).2 with | some cb => cb :: acc | none => acc)
+    have h2 := sweepOne_frame c now k cf
+    exact ⟨(ih _ _).1.trans h2.1, (ih _ _).2.trans h2.2⟩
+
+theorem deliverEvictions_released (cbs : List CB) (c : Cache) :
+    (c.deliverEvictions cbs).released = c.released := by
+  induction cbs generalizing c with
+  | nil => simp [Cache.deliverEvictions]
+  | cons cb rest ih =>
+    simp only [Cache.deliverEvictions]
+    rw [ih]
+    cases cb with
+    | exit v => rfl
+    | reject k cf v cost => rfl
+    | evict k cf v cost => simp only; split <;> simp
+
+/-- a cleanup tick touches neither the buffer nor the released set -/
+theorem tick_frame (c : Cache) (now : Nat) (order : List (Nat × Nat)) :
+    let c0 : Cache := { c with store := { c.store with em := (c.store.em.tryCleanup now).1 } }
+    (((c0.sweepKeys now order []).1.deliverEvictions (c0.sweepKeys now order []).2.reverse).buf = c.buf) ∧
+    (((c0.sweepKeys now order []).1.deliverEvictions (c0.sweepKeys now order []).2.reverse).released = c.released) := by
+  intro c0
+  have h1 := sweepKeys_frame order c0 now []
+  have h2 := deliverEvictions_frame (c0.sweepKeys now order []).2.reverse (c0.sweepKeys now order []).1
+  have h3 := deliverEvictions_released (c0.sweepKeys now order []).2.reverse (c0.sweepKeys now order []).1
+  exact ⟨h2.2.2.1.trans h1.1, h3.trans h1.2⟩
 
 end Stretto
